@@ -549,6 +549,50 @@ def findings():
 # --------------------------------------------------------------------------------------
 # check
 # --------------------------------------------------------------------------------------
+def expression_probes() -> list:
+    """Expressions of variables at the float / integer boundaries of the arithmetic operators: `build()` of the
+    expression equals the same Python expression on the assigned values (C08: "arithmetic and function
+    expressions ... the same calls directly with the evaluated values")."""
+    from pulser import Register, Sequence
+    from pulser.devices import MockDevice
+    from seqcheck import Fail
+
+    fails = []
+    with warnings.catch_warnings():
+        warnings.simplefilter("ignore")
+        seq = Sequence(Register.square(1, prefix="q"), MockDevice)
+        x = seq.declare_variable("x", dtype=float)
+        n = seq.declare_variable("n", dtype=int)
+        probes = [
+            ("floordiv-float-boundary", lambda: x // 0.1, dict(x=1.0, n=2), lambda v: v["x"] // 0.1),
+            ("floordiv", lambda: x // 2, dict(x=7.5, n=2), lambda v: v["x"] // 2),
+            ("floordiv-negative", lambda: x // 2, dict(x=-7.5, n=2), lambda v: v["x"] // 2),
+            ("rfloordiv", lambda: 7.5 // x, dict(x=2.0, n=2), lambda v: 7.5 // v["x"]),
+            ("mod-negative", lambda: x % 3, dict(x=-7.5, n=2), lambda v: v["x"] % 3),
+            ("rsub-int", lambda: 0.25 - n, dict(x=1.0, n=2), lambda v: 0.25 - v["n"]),
+            ("rtruediv-int", lambda: 2.5 / n, dict(x=1.0, n=2), lambda v: 2.5 / v["n"]),
+            ("rpow-int", lambda: 1.5 ** n, dict(x=1.0, n=2), lambda v: 1.5 ** v["n"]),
+            ("rmod-int", lambda: 7.5 % n, dict(x=1.0, n=2), lambda v: 7.5 % v["n"]),
+            ("int-negative-power", lambda: n ** -1, dict(x=1.0, n=2), lambda v: v["n"] ** -1),
+            ("int-true-division", lambda: n / 4, dict(x=1.0, n=2), lambda v: v["n"] / 4),
+        ]
+        for name, mk, vals, direct in probes:
+            want = float(direct(vals))
+            try:
+                e = mk()
+                for k, v in vals.items():
+                    seq._variables[k]._assign(v)
+                got = float(np.asarray(e.build()).reshape(-1)[0])
+                bad = abs(got - want) > 1e-12 * max(1.0, abs(want))
+                what = f"builds to {got}"
+            except Exception as ex:  # noqa: BLE001
+                bad, what = True, f"raises {type(ex).__name__}: {str(ex)[:60]}"
+            if bad:
+                fails.append(Fail(PROP, "expression-value", f"{name} with {vals}: the expression {what}, the same Python "
+                                  f"expression on the values gives {want}", key=dict(form=name)))
+    return fails
+
+
 def check(tier: str, seed: int) -> int:
     timer = Timer()
     thms, axioms, discharged = lean_obligations()
@@ -628,6 +672,14 @@ def check(tier: str, seed: int) -> int:
             violations.append(dict(property=PROP, kind="monitor", clause=f.clause, message=f.msg, key=f.key,
                                    case=small))
 
+    # 0. expression boundaries (deterministic)
+    for f in expression_probes():
+        kf = match_known(f.prop, f.key, known)
+        if kf is not None:
+            known_hits[kf["id"]] += 1
+        else:
+            violations.append(dict(property=PROP, kind="monitor", clause=f.clause, message=f.msg, key=f.key,
+                                   case=None, probe="expression"))
     # 1. corpus
     for item in corpus_items():
         handle(item, run_case(item), "corpus")
